@@ -429,7 +429,7 @@ def _fuzz_jobs(ctx, kinds_all):
     add("direct", "pdf", {"seed": M.SEEDS["plain"][0], "muts": [["const", "pdfparent"]]}, foreign=True)
     if T:
         add("cli", "pdf", {"seed": M.SEEDS["plain"][0], "muts": [["const", "pdfparent"]]}, foreign=True, cli_mode="text")
-        add("member", "ppt", {"seed": M.SEEDS["doc"][0], "muts": [["olevec", 0x7FFFFFFF]]}, foreign=True, members=1, arch="zip")
+        add("member", "doc", {"seed": M.SEEDS["doc"][0], "muts": [["olevec", 0x7FFFFFFF]]}, members=1, arch="zip")
     per_seed = 150 if T else 5
     for kind in kinds_all:
         seeds = M.SEEDS[kind] if T else M.SEEDS[kind][:2]
